@@ -18,6 +18,16 @@ Design deviations (DESIGN.md section 4, C03):
     explicit value is shielded by R3, so a violation shows up in a redo only for formulas that
     depend on something outside the document AND happened to return the stored value the first
     time; that is too weak to be called a necessary condition.
+
+How the clauses are decided (roles, not spellings -- helpers in _h_A.py): every anchored function is
+looked at through the Inliner (small same-class / same-module helpers dissolved into the caller, so
+"a few statements extracted into a helper" leaves the analysed code unchanged); operands are
+compared after Expander normalisation (single-assignment locals replaced by what they stand for,
+tuple unpacking included); arguments are matched against the callee's signature (positional or
+keyword); returned values are followed through locals (`r = E; return r`); guards are decided by
+path-sensitive reachability over atoms (Facts), so `if c: X`, `if not c: return` + X and swapped
+branches are the same thing; writes found in a helper are attributed to the functions that call it
+(Owners), and the position-sensitive clauses then see them inlined at the call.
 """
 import ast
 from ..fn import World
@@ -306,17 +316,6 @@ def r2_forward_replay(run, w):
 
 
 # ------------------------------------------------------------------------------------------
-def _pmap_lookup(e, p_node):
-  """Is e (locals already expanded) a non-consuming lookup of this node's exempt rows:
-  <x>._prevent_recompute_map.get(node[, d]) / <x>._prevent_recompute_map[node]?  -> method name"""
-  if isinstance(e, ast.Call) and isinstance(e.func, ast.Attribute) and \
-      endswith(dotted(e.func.value), PMAP) and e.args and text(e.args[0]) == p_node:
-    return e.func.attr
-  if isinstance(e, ast.Subscript) and endswith(dotted(e.value), PMAP) and text(e.slice) == p_node:
-    return "__getitem__"
-  return None
-
-
 def r3_exemptions(run, w):
   R3 = run.rule("C03-R3", "explicit (replayed) values of trigger-formula columns are exempt from "
                 "recalculation for the whole user action: written by prevent_recalc only, cleared "
